@@ -181,7 +181,7 @@ def index_obligations():
                 ok = rc2 == 0 and out2.count("Closed under the global context") == 1 and "Axioms:" not in out2
                 if rc2 == 0 and not ok:
                     infra = infra or "coq/gen/Check_Index.v compiles but is not closed under the global context:\n" + out2[-800:]
-                proof, failing = _proof_status(common.strip_comments(src) if False else src, out2, ok)
+                proof, failing = _proof_status(src, out2, ok)   # raw source: coqc reports raw line numbers
         finally:
             fcntl.flock(lk, fcntl.LOCK_UN)
     _index.update(res=res, proof=proof, failing=failing, infra=infra)
@@ -201,9 +201,30 @@ def run_gen(c):
 
 
 def pre_checks(ctx):
+    import os
+
     o = index_obligations()
     if o["infra"]:
         yield o["infra"]
+    for prob in ti.selftest(common.REPO):      # the translator must keep rejecting out-of-subset variants of the source
+        yield "harness/translate_index.py no longer fails closed: " + prob
+    if ctx.get("tier") == "thorough" and not os.environ.get("VERIF_NO_COQCHK") and not o.get("chk_done") \
+            and all(v == "proved" for v in o["proof"].values()):
+        # independent re-check of the compiled obligations file and everything it depends on (as for Props/C08.v)
+        o["chk_done"] = True
+        with open(GEN_DIR / ".lock", "w") as lk:
+            fcntl.flock(lk, fcntl.LOCK_EX)
+            try:
+                _coqc_gen("Gen_Index.v")
+                _coqc_gen("Check_Index.v")
+                rc, out = common.sh(["coqchk", "-silent", "-o", "-Q", "theories", "Verif", "-Q", "gen", "VerifGen",
+                                     "VerifGen.Check_Index"], timeout=1500, cwd=common.COQ)
+            finally:
+                fcntl.flock(lk, fcntl.LOCK_UN)
+        fields = re.findall(r"\* (?:Axioms|Constants/Inductives relying on type-in-type|Constants/Inductives relying on "
+                            r"unsafe \(co\)fixpoints|Inductives whose positivity is assumed):\s*(\S+)", out)
+        if rc != 0 or len(fields) != 4 or any(f != "<none>" for f in fields):
+            o["proof"][COROLLARIES] = "FAILED: coqchk on VerifGen.Check_Index: " + " ".join(out.split())[-200:]
 
 
 # ------------------------------------------------------------------ implementation driver
